@@ -17,7 +17,7 @@ func init() {
 		Explanation: `R14.1 emit/advance pairing: OverlayOp messages are written only by fresh, skip and Finalize; fresh advances readOffset by len of the data it stored in the op, skip by the length it stored, on every success path; ` +
 			`R14.2 Finalize flushes (checked) before writing the end marker, and the entry writer finalizes the overlay before syncing; R14.3 magic and header are written only at overlay offset 0 and the byte counter is seeded with the overlay offset; ` +
 			`R14.4 every op type the writer emits has a case in the applier and the applier returns nil only at the end marker; R14.5 the old-file window is inspected only below the count its Read returned; R14.6 that read cannot come back short before the end of the old file (a full read, or a single Read on a reader that is not a bufio.Reader); ` +
-			`R02.4 (shared) the caller truncates at the position the applier ended. R14.7 each field that OverlayPatchContext.Patch assigns is assigned before it is first read or is zero again on every success return; scratch buffers, recycled message objects that are Reset before use and allocation tests are not state. R14.8 every success return of overlayProcessor.write has read the old file into the window (old and new are consumed in lockstep). NOT decided: the window/skip index arithmetic, write slicing, short reads of the old file.`,
+			`R02.4 (shared) the caller truncates at the position the applier ended. R14.7 each field that OverlayPatchContext.Patch assigns is assigned before it is first read or is zero again on every success return; scratch buffers, recycled message objects that are Reset before use and allocation tests are not state. R14.8 every success return of overlayProcessor.write has read the old file into the window (old and new are consumed in lockstep). R14.9 every path to NewOverlayWriter(r, readOffset, ...) outside package overlay passes a Seek(readOffset, SeekStart) on r. R14.10 every integer field the overlay writer keeps adding to and hands on (into a field of something, or returns) is started by NewOverlayWriter from one of its parameters. NOT decided: the window/skip index arithmetic, write slicing, short reads of the old file.`,
 		Run: runC14,
 	})
 }
@@ -45,6 +45,8 @@ func runC14(c *core.Ctx) {
 	c.Rule("R14.6", "the window read is a full read or does not go through a buffering reader")
 	c.Rule("R02.4", "overlay application ends with truncation at the applier's final position")
 	ruleUseStartsClean(c, "R14.7", "pwr/overlay", "OverlayPatchContext", "Patch")
+	ruleOverlayReaderStandsWhereTold(c, "R14.9", 1)
+	ruleRunningTotalsAreSeeded(c, "R14.10")
 	opT := overlayOpTypes(c.P)
 	if len(opT) < 3 {
 		c.Missing("R14", "pwr/overlay.OverlayOp_*", "op type constants not found")
